@@ -868,9 +868,11 @@ def pool():
     two generated extension modules are compiled once, here, before forking."""
     if _POOL[0] is None:
         import multiprocessing as mp
+        # spawn, not fork: the extension modules may have started OpenMP
+        # threads in this process, which a forked child would wait on forever
+        _POOL[0] = mp.get_context('spawn').Pool(min(12, (mp.cpu_count() or 2)))
         warm = [c for c in corpus() if c.get('family') == 'base'][-2]
-        run_case(warm, H.Result(''), False)
-        _POOL[0] = mp.get_context('fork').Pool(min(12, (mp.cpu_count() or 2)))
+        _POOL[0].apply(_worker, ((warm, False),))
     return _POOL[0]
 
 
